@@ -6,8 +6,631 @@ From PV Require Import Base.Bytes Base.Result Client.KeyGlue Client.KeyStore.
 Import ListNotations.
 Local Open Scope list_scope.
 
-Lemma check_signature_def P pk sg msg k :
-  from_encoded_key P (PS pk) None = Ok k ->
-  check_signature P pk sg msg =
-    match key_verify P k (PS sg) (PB msg) with Valid => Ok true | Invalid => Ok false | Crashed => Reject end.
-Proof. intro H. unfold check_signature. rewrite H. reflexivity. Qed.
+(* ------------------------------------------------------------------------------------------- *)
+(* lists and prefixes                                                                          *)
+(* ------------------------------------------------------------------------------------------- *)
+
+Lemma bytes_eqb_refl b : bytes_eqb b b = true.
+Proof. apply bytes_eqb_spec. reflexivity. Qed.
+
+Lemma bytes_eqb_eq a b : bytes_eqb a b = true -> a = b.
+Proof. apply bytes_eqb_spec. Qed.
+
+Lemma bytes_eqb_neq a b : a <> b -> bytes_eqb a b = false.
+Proof.
+  intro H. destruct (bytes_eqb a b) eqn:E; [|reflexivity].
+  apply bytes_eqb_spec in E. contradiction.
+Qed.
+
+Lemma starts_with_app p v : starts_with p (p ++ v) = true.
+Proof.
+  unfold starts_with. rewrite firstn_app, Nat.sub_diag, firstn_all. simpl.
+  rewrite app_nil_r. apply bytes_eqb_refl.
+Qed.
+
+Lemma skipn_app_exact {A} (p v : list A) : skipn (length p) (p ++ v) = v.
+Proof. induction p as [|x p IH]; simpl; auto. Qed.
+
+Lemma firstn_app_exact {A} (p v : list A) : firstn (length p) (p ++ v) = p.
+Proof. induction p as [|x p IH]; simpl; [reflexivity | now rewrite IH]. Qed.
+
+Lemma firstn_app_len {A} n (p v : list A) : length p = n -> firstn n (p ++ v) = p.
+Proof. intros <-. apply firstn_app_exact. Qed.
+
+Lemma skipn_app_len {A} n (p v : list A) : length p = n -> skipn n (p ++ v) = v.
+Proof. intros <-. apply skipn_app_exact. Qed.
+
+Lemma starts_with_split p v : starts_with p v = true -> v = p ++ skipn (length p) v.
+Proof.
+  unfold starts_with. intro H. apply bytes_eqb_eq in H.
+  rewrite <- H at 1. symmetry. apply firstn_skipn.
+Qed.
+
+Lemma firstn_firstn_le {A} (n m : nat) (l : list A) : n <= m -> firstn n (firstn m l) = firstn n l.
+Proof. intro H. rewrite firstn_firstn. now rewrite Nat.min_l. Qed.
+
+Lemma starts_with_firstn p e n : starts_with p e = true -> n <= length p -> firstn n e = firstn n p.
+Proof.
+  intros H Hn. apply starts_with_split in H. rewrite H.
+  rewrite firstn_app. replace (n - length p) with 0 by lia. simpl. now rewrite app_nil_r.
+Qed.
+
+Lemma firstn_comparable {A} (a b : nat) (e : list A) :
+  a <= b -> firstn a (firstn b e) = firstn a e.
+Proof. apply firstn_firstn_le. Qed.
+
+(* two prefixes of the same string are comparable *)
+Lemma starts_with_comparable p1 p2 e :
+  starts_with p1 e = true -> starts_with p2 e = true ->
+  starts_with p1 p2 = true \/ starts_with p2 p1 = true.
+Proof.
+  intros H1 H2. unfold starts_with in *.
+  apply bytes_eqb_eq in H1. apply bytes_eqb_eq in H2.
+  destruct (Nat.le_ge_cases (length p1) (length p2)) as [L|L].
+  - left. rewrite <- H2. rewrite firstn_firstn_le by exact L. rewrite H1. apply bytes_eqb_refl.
+  - right. rewrite <- H1. rewrite firstn_firstn_le by exact L. rewrite H2. apply bytes_eqb_refl.
+Qed.
+
+Lemma find_dominated {A} (f g : A -> bool) (l : list A) (r : A) :
+  (forall x, In x l -> f x = true -> g x = true) ->
+  find g l = Some r -> f r = true -> find f l = Some r.
+Proof.
+  induction l as [|x l IH]; simpl; intros Hd Hg Hf; [discriminate|].
+  destruct (g x) eqn:Gx.
+  - injection Hg as ->. now rewrite Hf.
+  - destruct (f x) eqn:Fx.
+    + rewrite (Hd x (or_introl eq_refl) Fx) in Gx. discriminate.
+    + apply IH; auto.
+Qed.
+
+Lemma row_eqb_eq a b : row_eqb a b = true -> a = b.
+Proof.
+  unfold row_eqb. intro H.
+  apply andb_true_iff in H as [H H4]. apply andb_true_iff in H as [H H3]. apply andb_true_iff in H as [H1 H2].
+  apply bytes_eqb_eq in H1. apply bytes_eqb_eq in H3. apply Nat.eqb_eq in H2. apply Nat.eqb_eq in H4.
+  destruct a, b; simpl in *; subst; reflexivity.
+Qed.
+
+(* ------------------------------------------------------------------------------------------- *)
+(* facts about the concrete table, by computation                                              *)
+(* ------------------------------------------------------------------------------------------- *)
+
+Definition enc_match_len (n : nat) (prefix : bytes) (r : row) : bool :=
+  Nat.eqb n (r_paylen r) && bytes_eqb prefix (r_txt r).
+
+Definition compat (r r' : row) : bool :=
+  Nat.eqb (r_enclen r) (r_enclen r') &&
+  (starts_with (r_txt r) (r_txt r') || starts_with (r_txt r') (r_txt r)).
+
+(* a character that makes bytes.fromhex fail wherever it stands *)
+Definition badc (c : N) : bool :=
+  match hexdig c with None => negb (is_space c) | Some _ => false end.
+
+Definition row_ok (r : row) : bool :=
+  match find (enc_match_len (r_paylen r) (r_txt r)) table with Some r' => row_eqb r' r | None => false end &&
+  match find (compat r) table with Some r' => row_eqb r' r | None => false end &&
+  match str_of (r_txt r) with c :: _ => negb (c =? 48)%N | [] => false end &&
+  existsb badc (str_of (r_txt r)).
+
+Lemma used_rows_ok : forallb row_ok used_rows = true.
+Proof. vm_compute. reflexivity. Qed.
+
+Lemma used_row_ok r : In r used_rows -> row_ok r = true.
+Proof. intro H. exact (proj1 (forallb_forall row_ok used_rows) used_rows_ok r H). Qed.
+
+Lemma find_enc P r p : In r used_rows -> length p = r_paylen r ->
+  base58_encode P p (r_txt r) = Ok (b58enc P (r_bin r ++ p)).
+Proof.
+  intros Hin Hlen. apply used_row_ok in Hin. unfold row_ok in Hin.
+  apply andb_true_iff in Hin as [Hin _]. apply andb_true_iff in Hin as [Hin _]. apply andb_true_iff in Hin as [Hin _].
+  unfold base58_encode.
+  replace (find (enc_match p (r_txt r)) table) with (find (enc_match_len (r_paylen r) (r_txt r)) table).
+  - destruct (find _ table) as [r'|]; [|discriminate]. apply row_eqb_eq in Hin. subst. reflexivity.
+  - unfold enc_match, enc_match_len. rewrite Hlen. reflexivity.
+Qed.
+
+Lemma find_dec r e : In r used_rows -> length e = r_enclen r -> starts_with (r_txt r) e = true ->
+  find (dec_match e) table = Some r.
+Proof.
+  intros Hin Hlen Hst. apply used_row_ok in Hin. unfold row_ok in Hin.
+  apply andb_true_iff in Hin as [Hin _]. apply andb_true_iff in Hin as [Hin _]. apply andb_true_iff in Hin as [_ Hin].
+  destruct (find (compat r) table) as [r'|] eqn:F; [|discriminate]. apply row_eqb_eq in Hin. subst r'.
+  apply (find_dominated (dec_match e) (compat r)); auto.
+  - intros x _ Hx. unfold dec_match in Hx. apply andb_true_iff in Hx as [Hx1 Hx2].
+    apply Nat.eqb_eq in Hx1. unfold compat. apply andb_true_iff. split.
+    + apply Nat.eqb_eq. congruence.
+    + apply orb_true_iff. exact (starts_with_comparable _ _ _ Hst Hx2).
+  - unfold dec_match. rewrite Hlen, Nat.eqb_refl, Hst. reflexivity.
+Qed.
+
+(* ------------------------------------------------------------------------------------------- *)
+(* base58_encode / base58_decode round trip for the rows the key glue uses                      *)
+(* ------------------------------------------------------------------------------------------- *)
+
+Lemma b58_round P (L : b58_laws P) r p : In r used_rows -> length p = r_paylen r ->
+  let e := b58enc P (r_bin r ++ p) in
+  base58_encode P p (r_txt r) = Ok e /\ base58_decode P e = Ok p /\
+  length e = r_enclen r /\ starts_with (r_txt r) e = true.
+Proof.
+  intros Hin Hlen e. destruct (b58_shape P L r p Hin Hlen) as [Hl Hs]. fold e in Hl, Hs.
+  split; [exact (find_enc P r p Hin Hlen)|]. split; [|split; assumption].
+  unfold base58_decode. rewrite (find_dec r e Hin Hl Hs).
+  unfold e. rewrite (b58_inv P L). rewrite starts_with_app, skipn_app_exact. reflexivity.
+Qed.
+
+(* ------------------------------------------------------------------------------------------- *)
+(* scrub_input                                                                                 *)
+(* ------------------------------------------------------------------------------------------- *)
+
+Lemma fromhex_bad s : existsb badc s = true -> forall top, fromhex_aux s top = None.
+Proof.
+  induction s as [|c s IH]; simpl; intros H top; [discriminate|].
+  unfold badc in H at 1. destruct (hexdig c) as [d|] eqn:Hd.
+  - simpl in H. destruct top as [t|].
+    + rewrite (IH H None). reflexivity.
+    + destruct (is_space c); apply IH; exact H.
+  - destruct (is_space c) eqn:Sp; simpl in H.
+    + destruct top as [t|]; [reflexivity|]. apply IH; exact H.
+    + destruct top as [t|]; reflexivity.
+Qed.
+
+Lemma str_of_app a b : str_of (a ++ b) = str_of a ++ str_of b.
+Proof. unfold str_of. apply map_app. Qed.
+
+Lemma forallb_map' {A B} (f : B -> bool) (g : A -> B) l : forallb f (map g l) = forallb (fun x => f (g x)) l.
+Proof. induction l as [|x l IH]; simpl; [reflexivity | now rewrite IH]. Qed.
+
+Lemma ascii_encode_str_of e :
+  forallb (fun b => is_ascii (Byte.to_N b)) e = true -> ascii_encode (str_of e) = Some e.
+Proof.
+  intro H. unfold ascii_encode, str_of. rewrite forallb_map'. rewrite H.
+  rewrite map_map. f_equal. rewrite <- (map_id e) at 2. apply map_ext. intro b. apply b8_to_N.
+Qed.
+
+(* a base58 text of a used row is not read as hex: scrub_input returns its ASCII bytes *)
+Lemma scrub_b58_text r e : In r used_rows -> starts_with (r_txt r) e = true ->
+  forallb (fun b => is_ascii (Byte.to_N b)) e = true ->
+  scrub_input (PS (str_of e)) = Ok e.
+Proof.
+  intros Hin Hst Hasc. apply used_row_ok in Hin. unfold row_ok in Hin.
+  apply andb_true_iff in Hin as [Hin Hbad]. apply andb_true_iff in Hin as [_ Hhd].
+  unfold scrub_input. apply starts_with_split in Hst.
+  assert (Hno : fromhex (rm0x (str_of e)) = None).
+  { rewrite Hst, str_of_app.
+    destruct (str_of (r_txt r)) as [|c t] eqn:T; [discriminate|].
+    assert (R : rm0x ((c :: t) ++ str_of (skipn (length (r_txt r)) e)) = (c :: t) ++ str_of (skipn (length (r_txt r)) e)).
+    { simpl. destruct c as [|pc]; [reflexivity|].
+      destruct (N.eqb_spec (N.pos pc) 48) as [E|E]; [discriminate|].
+      unfold rm0x. destruct pc as [pc|pc|]; try reflexivity.
+      repeat (destruct pc as [pc|pc|]; try reflexivity); exfalso; apply E; reflexivity. }
+    rewrite R. unfold fromhex. apply fromhex_bad. rewrite existsb_app, Hbad. reflexivity. }
+  rewrite Hno. rewrite (ascii_encode_str_of e Hasc). reflexivity.
+Qed.
+
+(* ------------------------------------------------------------------------------------------- *)
+(* big-endian numbers (P-256 signatures are r and s written on 32 bytes each)                  *)
+(* ------------------------------------------------------------------------------------------- *)
+
+Lemma be_to_N_acc_snoc acc l b : be_to_N_acc acc (l ++ [b]) = (be_to_N_acc acc l * 256 + Byte.to_N b)%N.
+Proof. revert acc. induction l as [|x l IH]; simpl; intro acc; [reflexivity | apply IH]. Qed.
+
+Lemma be_to_N_snoc l b : be_to_N (l ++ [b]) = (be_to_N l * 256 + Byte.to_N b)%N.
+Proof. apply be_to_N_acc_snoc. Qed.
+
+Lemma length_N_to_be w n : length (N_to_be w n) = w.
+Proof.
+  revert n. induction w as [|w IH]; intro n; simpl; [reflexivity|].
+  rewrite app_length, IH. simpl. lia.
+Qed.
+
+Lemma be_to_N_to_be w n : be_to_N (N_to_be w n) = (n mod 256 ^ N.of_nat w)%N.
+Proof.
+  revert n. induction w as [|w IH]; intro n.
+  - simpl. rewrite N.mod_1_r. reflexivity.
+  - cbn [N_to_be]. rewrite be_to_N_snoc, IH, to_N_b8.
+    rewrite Nat2N.inj_succ, N.pow_succ_r'.
+    assert (Hp : (256 ^ N.of_nat w <> 0)%N) by (apply N.pow_nonzero; discriminate).
+    rewrite (N.mod_mul_r n 256 (256 ^ N.of_nat w)) by (auto; discriminate). lia.
+Qed.
+
+Lemma to_bytes_be_32 n : (n < 2 ^ 256)%N ->
+  to_bytes_be 32 n = Some (N_to_be 32 n) /\ be_to_N (N_to_be 32 n) = n /\ length (N_to_be 32 n) = 32.
+Proof.
+  intro H. assert (E : (256 ^ N.of_nat 32 = 2 ^ 256)%N) by (vm_compute; reflexivity).
+  split; [|split].
+  - unfold to_bytes_be. rewrite E. apply N.ltb_lt in H. rewrite H. reflexivity.
+  - rewrite be_to_N_to_be, E. apply N.mod_small. exact H.
+  - apply length_N_to_be.
+Qed.
+
+(* ------------------------------------------------------------------------------------------- *)
+(* the rows of the table the key glue selects                                                  *)
+(* ------------------------------------------------------------------------------------------- *)
+
+Definition sig_row (c : curve) (g : bool) : row :=
+  if g && negb (curve_eqb c BL) then mkrow "sig" 96 "04822b" 64
+  else match c with
+       | Ed => mkrow "edsig" 99 "09f5cd8612" 64
+       | Sp => mkrow "spsig" 99 "0d7365133f" 64
+       | P2 => mkrow "p2sig" 98 "36f02c34" 64
+       | BL => mkrow "BLsig" 142 "28ab40cf" 96
+       end.
+
+Definition pk_row (c : curve) : row :=
+  match c with
+  | Ed => mkrow "edpk" 54 "0d0f25d9" 32
+  | Sp => mkrow "sppk" 55 "03fee256" 33
+  | P2 => mkrow "p2pk" 55 "03b28b7f" 33
+  | BL => mkrow "BLpk" 76 "069587cc" 48
+  end.
+
+Lemma existsb_row_In r l : existsb (row_eqb r) l = true -> In r l.
+Proof.
+  intro H. apply existsb_exists in H as [x [Hx E]]. apply row_eqb_eq in E. subst. exact Hx.
+Qed.
+
+Lemma sig_row_used c g : In (sig_row c g) used_rows.
+Proof. apply existsb_row_In. destruct c, g; vm_compute; reflexivity. Qed.
+
+Lemma sig_row_txt c g : r_txt (sig_row c g) = sig_prefix (curve_tag c) g.
+Proof. destruct c, g; vm_compute; reflexivity. Qed.
+
+Lemma sig_row_paylen c g : r_paylen (sig_row c g) = siglen c.
+Proof. destruct c, g; reflexivity. Qed.
+
+Lemma pk_row_used c : In (pk_row c) used_rows.
+Proof. apply existsb_row_In. destruct c; vm_compute; reflexivity. Qed.
+
+Lemma pk_row_txt c : r_txt (pk_row c) = curve_tag c ++ tx "pk".
+Proof. destruct c; vm_compute; reflexivity. Qed.
+
+Lemma pk_row_paylen c : r_paylen (pk_row c) = pklen c.
+Proof. destruct c; reflexivity. Qed.
+
+Lemma curve_of_tag_tag c : curve_of_tag (curve_tag c) = Some c.
+Proof. destruct c; vm_compute; reflexivity. Qed.
+
+(* the curve / prefix test of Key.verify on a signature text of row [sig_row c' g], for a key of curve [c] *)
+Lemma prefix_check c c' g :
+  negb (bytes_eqb (firstn 3 (r_txt (sig_row c' g))) (tx "sig")) &&
+  negb (bytes_eqb (curve_tag c) (firstn 2 (r_txt (sig_row c' g))))
+  = negb ((g && negb (curve_eqb c' BL)) || curve_eqb c c').
+Proof. destruct c, c', g; vm_compute; reflexivity. Qed.
+
+Lemma sig_row_txt_len c g : 3 <= length (r_txt (sig_row c g)).
+Proof. destruct c, g; vm_compute; lia. Qed.
+
+Lemma nonempty_true b : b <> [] -> nonempty b = true.
+Proof. destruct b; [contradiction | reflexivity]. Qed.
+
+(* ------------------------------------------------------------------------------------------- *)
+(* Key.verify is the native verdict on (public point, decoded signature, payload)              *)
+(* ------------------------------------------------------------------------------------------- *)
+
+Lemma verify_wellformed P (L : b58_laws P) k c c' g raw m em :
+  ktag k = curve_tag c -> pub k <> [] -> scrub_input m = Ok em -> length raw = siglen c' ->
+  key_verify P k (PS (str_of (b58enc P (r_bin (sig_row c' g) ++ raw)))) m =
+    if (g && negb (curve_eqb c' BL)) || curve_eqb c c' then raw_verify P c (pub k) raw em else Invalid.
+Proof.
+  intros Htag Hpub Hm Hraw.
+  pose proof (sig_row_used c' g) as Hin.
+  assert (Hlen : length raw = r_paylen (sig_row c' g)) by (rewrite sig_row_paylen; exact Hraw).
+  destruct (b58_round P L _ raw Hin Hlen) as [_ [Hdec [Hel Hst]]].
+  set (e := b58enc P (r_bin (sig_row c' g) ++ raw)) in *.
+  assert (Hscr : scrub_input (PS (str_of e)) = Ok e).
+  { apply (scrub_b58_text (sig_row c' g)); auto. apply (b58_ascii P L). }
+  unfold key_verify. rewrite Hscr, Hm. rewrite (nonempty_true _ Hpub). cbn [negb].
+  rewrite (starts_with_firstn _ e 3 Hst (sig_row_txt_len c' g)).
+  rewrite (starts_with_firstn _ e 2 Hst) by (pose proof (sig_row_txt_len c' g); lia).
+  rewrite Htag, prefix_check.
+  destruct ((g && negb (curve_eqb c' BL)) || curve_eqb c c'); cbn [negb]; [|reflexivity].
+  rewrite Hdec, curve_of_tag_tag. reflexivity.
+Qed.
+
+(* ------------------------------------------------------------------------------------------- *)
+(* native signing followed by native verification, through the glue                            *)
+(* ------------------------------------------------------------------------------------------- *)
+
+Lemma keypair_pk_len P (L : sig_laws P) c se pk sk : keypair P c se pk sk -> length pk = pklen c.
+Proof.
+  destruct c; simpl; intro H.
+  - destruct H as [H | [_ [_ [seed H]]]]; apply (sl_ed P L _ _ _ []) in H; tauto.
+  - destruct H as [H _]. apply (sl_sp P L _ _ []) in H. tauto.
+  - destruct H as [H _]. apply (sl_p2 P L _ _ []) in H. tauto.
+  - destruct H as [H _]. apply (sl_bl P L _ _ []) in H. tauto.
+Qed.
+
+Lemma raw_sign_verify P (L : sig_laws P) c se pk sk em :
+  keypair P c se pk sk ->
+  exists raw, raw_sign P c sk em = Ok raw /\ length raw = siglen c /\ raw_verify P c pk raw em = Valid.
+Proof.
+  destruct c; unfold keypair, raw_sign, raw_verify, siglen; cbn beta iota; intro H.
+  - assert (H' : exists seed, ed_seed_keypair P seed = Some (pk, sk)).
+    { destruct H as [H | [_ [-> [seed H]]]]; eauto. }
+    destruct H' as [seed H'].
+    destruct (sl_ed P L _ _ _ (blake2b P 32 em) H') as [_ [_ [_ [_ [s [Hs [Hl Hv]]]]]]].
+    exists s. rewrite Hs, Hv. auto.
+  - destruct H as [H ->].
+    destruct (sl_sp P L _ _ (blake2b P 32 em) H) as [_ [Hd [s [Hs [Hl Hv]]]]].
+    exists s. rewrite Hs, Hd, Hv. auto.
+  - destruct H as [H ->].
+    destruct (sl_p2 P L _ _ (blake2b P 32 em) H) as [_ [Hd [r [s [Hs [Hr [Hs' Hv]]]]]]].
+    destruct (to_bytes_be_32 r Hr) as [Er [Vr Lr]]. destruct (to_bytes_be_32 s Hs') as [Es [Vs Ls]].
+    exists (N_to_be 32 r ++ N_to_be 32 s). rewrite Hs, Er, Es. split; [reflexivity|]. split.
+    + rewrite app_length, Lr, Ls. reflexivity.
+    + rewrite Hd. rewrite (firstn_app_len 32 _ (N_to_be 32 s) Lr), (skipn_app_len 32 _ (N_to_be 32 s) Lr), Vr, Vs, Hv. reflexivity.
+  - destruct H as [H ->].
+    destruct (sl_bl P L _ _ em H) as [_ [s [Hs [Hl Hv]]]].
+    exists s. rewrite Hs, Hv. auto.
+Qed.
+
+Lemma keypair_secret_nonempty P (L : sig_laws P) c se pk sk : keypair P c se pk sk -> se <> [] -> sk <> [].
+Proof.
+  destruct c; simpl; intros H Hne; try (destruct H as [_ ->]; exact Hne).
+  destruct H as [H | [_ [-> _]]]; [|exact Hne].
+  apply (sl_ed P L _ _ _ []) in H. destruct H as [_ [_ [H _]]]. intro E. subst sk. discriminate.
+Qed.
+
+Lemma secret_of_some pk sk tag : sk <> [] -> secret_of (mkkey pk (Some sk) tag) = Some sk.
+Proof. destruct sk; [contradiction | reflexivity]. Qed.
+
+Lemma from_secret_exponent_keypair P (L : sig_laws P) c se pk sk :
+  keypair P c se pk sk -> from_secret_exponent P (curve_tag c) se = Ok (mkkey pk (Some sk) (curve_tag c)).
+Proof.
+  unfold from_secret_exponent. rewrite curve_of_tag_tag.
+  destruct c; simpl; intro H.
+  - destruct H as [H | [Hl [-> [seed H]]]].
+    + pose proof (sl_ed P L _ _ _ [] H) as [_ [Hs _]].
+      destruct (Nat.eqb_spec (length se) 64) as [E|E]; [rewrite Hs in E; discriminate|].
+      rewrite H. reflexivity.
+    + rewrite Hl. simpl. pose proof (sl_ed P L _ _ _ [] H) as [Hpk _]. rewrite Hpk. reflexivity.
+  - destruct H as [H ->]. rewrite H. reflexivity.
+  - destruct H as [H ->]. rewrite H. reflexivity.
+  - destruct H as [H ->]. rewrite H. reflexivity.
+Qed.
+
+Lemma sign_ok P (L : sig_laws P) c pk sk m em g raw :
+  sk <> [] -> scrub_input m = Ok em -> raw_sign P c sk em = Ok raw -> length raw = siglen c ->
+  key_sign P (mkkey pk (Some sk) (curve_tag c)) m g = Ok (str_of (b58enc P (r_bin (sig_row c g) ++ raw))).
+Proof.
+  intros Hsk Hm Hraw Hlen. unfold key_sign. rewrite Hm. cbn [bind].
+  rewrite (secret_of_some pk sk _ Hsk). cbn [ktag mkkey]. rewrite curve_of_tag_tag, Hraw. cbn [bind].
+  rewrite <- sig_row_txt.
+  rewrite (find_enc P (sig_row c g) raw (sig_row_used c g)) by (rewrite sig_row_paylen; exact Hlen).
+  reflexivity.
+Qed.
+
+Lemma sign_then_verify P (L : sig_laws P) c se pk sk m em g :
+  keypair P c se pk sk -> se <> [] -> scrub_input m = Ok em ->
+  exists s,
+    key_sign P (mkkey pk (Some sk) (curve_tag c)) m g = Ok s /\
+    key_verify P (mkkey pk (Some sk) (curve_tag c)) (PS s) m = Valid /\
+    key_verify P (mkkey pk None (curve_tag c)) (PS s) m = Valid.
+Proof.
+  intros Hkp Hne Hm.
+  destruct (raw_sign_verify P L c se pk sk em Hkp) as [raw [Hraw [Hlen Hv]]].
+  pose proof (keypair_secret_nonempty P L c se pk sk Hkp Hne) as Hsk.
+  assert (Hpk : pk <> []).
+  { pose proof (keypair_pk_len P L c se pk sk Hkp) as Hl. intro E. subst pk. destruct c; discriminate. }
+  exists (str_of (b58enc P (r_bin (sig_row c g) ++ raw))). split; [|split].
+  - apply (sign_ok P L c pk sk m em g raw); assumption.
+  - rewrite (verify_wellformed P (sl_b58 P L) _ c c g raw m em); auto.
+    assert (E : curve_eqb c c = true) by (destruct c; reflexivity). rewrite E, orb_true_r. exact Hv.
+  - rewrite (verify_wellformed P (sl_b58 P L) _ c c g raw m em); auto.
+    assert (E : curve_eqb c c = true) by (destruct c; reflexivity). rewrite E, orb_true_r. exact Hv.
+Qed.
+
+(* ------------------------------------------------------------------------------------------- *)
+(* importing a public key text; CHECK_SIGNATURE                                                *)
+(* ------------------------------------------------------------------------------------------- *)
+
+Lemma skipn_firstn_prefix p e n m : starts_with p e = true -> n + m <= length p ->
+  firstn m (skipn n e) = firstn m (skipn n p).
+Proof.
+  intros H Hn. apply starts_with_split in H. rewrite H at 1.
+  rewrite skipn_app. replace (n - length p) with 0 by lia. cbn [skipn].
+  rewrite firstn_app. rewrite skipn_length. replace (m - (length p - n)) with 0 by lia.
+  cbn [firstn]. now rewrite app_nil_r.
+Qed.
+
+Lemma pk_row_parse c :
+  firstn 2 (r_txt (pk_row c)) = curve_tag c /\
+  mem_bytes (curve_tag c) [tx "sp"; tx "p2"; tx "ed"; tx "BL"] = true /\
+  existsb (Nat.eqb (r_enclen (pk_row c))) [54; 55; 76; 88; 98] = true /\
+  bytes_eqb (firstn 1 (skipn 2 (r_txt (pk_row c)))) (tx "e") = false /\
+  firstn 2 (skipn 2 (r_txt (pk_row c))) = tx "pk" /\
+  length (r_txt (pk_row c)) = 4.
+Proof. destruct c; vm_compute; repeat split; reflexivity. Qed.
+
+Lemma from_encoded_public P (L : b58_laws P) c pk pass : length pk = pklen c ->
+  from_encoded_key P (PS (str_of (b58enc P (r_bin (pk_row c) ++ pk)))) pass = Ok (mkkey pk None (curve_tag c)).
+Proof.
+  intro Hlen. pose proof (pk_row_used c) as Hin.
+  assert (Hl : length pk = r_paylen (pk_row c)) by (rewrite pk_row_paylen; exact Hlen).
+  destruct (b58_round P L _ pk Hin Hl) as [_ [Hdec [Hel Hst]]].
+  set (e := b58enc P (r_bin (pk_row c) ++ pk)) in *.
+  assert (Hscr : scrub_input (PS (str_of e)) = Ok e).
+  { apply (scrub_b58_text (pk_row c)); auto. apply (b58_ascii P L). }
+  destruct (pk_row_parse c) as [T1 [T2 [T3 [T4 [T5 T6]]]]].
+  unfold from_encoded_key. rewrite Hscr. cbn [bind].
+  rewrite (starts_with_firstn _ e 2 Hst) by lia. rewrite T1, T2. cbn [negb].
+  rewrite Hel, T3. cbn [negb].
+  rewrite (skipn_firstn_prefix _ e 2 1 Hst) by lia. rewrite T4.
+  rewrite (skipn_firstn_prefix _ e 2 2 Hst) by lia. rewrite T5.
+  change (mem_bytes (tx "pk") [tx "pk"; tx "sk"]) with true. cbn [negb].
+  rewrite Hdec. cbn [bind].
+  change (bytes_eqb (tx "pk") (tx "sk")) with false. reflexivity.
+Qed.
+
+Lemma public_key_text P c pk sec : length pk = pklen c ->
+  public_key P (mkkey pk sec (curve_tag c)) = Ok (str_of (b58enc P (r_bin (pk_row c) ++ pk))).
+Proof.
+  intro Hlen. unfold public_key. cbn [pub ktag mkkey]. rewrite <- pk_row_txt.
+  rewrite (find_enc P (pk_row c) pk (pk_row_used c)) by (rewrite pk_row_paylen; exact Hlen).
+  reflexivity.
+Qed.
+
+Lemma check_signature_public P (L : b58_laws P) c pk sec pks sg msg : length pk = pklen c ->
+  public_key P (mkkey pk sec (curve_tag c)) = Ok pks ->
+  check_signature P pks sg msg =
+    match key_verify P (mkkey pk None (curve_tag c)) (PS sg) (PB msg) with
+    | Valid => Ok true | Invalid => Ok false | Crashed => Reject
+    end.
+Proof.
+  intros Hlen Hpk. rewrite (public_key_text P c pk sec Hlen) in Hpk. injection Hpk as <-.
+  unfold check_signature. rewrite (from_encoded_public P L c pk None Hlen). reflexivity.
+Qed.
+
+(* ------------------------------------------------------------------------------------------- *)
+(* what the native primitives are applied to                                                   *)
+(* ------------------------------------------------------------------------------------------- *)
+
+Definition raw_sign_on (P : prims) (c : curve) (sk pl : bytes) : result bytes :=
+  match c with
+  | Ed => of_option (ed_sign P pl sk)
+  | Sp => of_option (sp_sign P sk pl)
+  | P2 => match p2_sign P (be_to_N sk) pl with
+          | Some (r, s) => match to_bytes_be 32 r, to_bytes_be 32 s with
+                           | Some rb, Some sb => Ok (rb ++ sb)
+                           | _, _ => Reject
+                           end
+          | None => Reject
+          end
+  | BL => of_option (bl_sign P (le_to_N sk) pl)
+  end.
+
+Definition raw_verify_on (P : prims) (c : curve) (pk ds pl : bytes) : verdict :=
+  match c with
+  | Ed => verdict_of (ed_verify P ds pl pk)
+  | Sp => match sp_decode P pk with
+          | PTrue => verdict_of (sp_verify P pk ds pl)
+          | PValueError => Invalid
+          | _ => Crashed
+          end
+  | P2 => match p2_decode P pk with
+          | PTrue => verdict_of (p2_verify P pk pl (be_to_N (firstn 32 ds)) (be_to_N (skipn 32 ds)))
+          | PValueError => Invalid
+          | _ => Crashed
+          end
+  | BL => verdict_of (bl_verify P pk pl ds)
+  end.
+
+Lemma digest_discipline P c sk pk ds em :
+  raw_sign P c sk em = raw_sign_on P c sk (payload P c em) /\
+  raw_verify P c pk ds em = raw_verify_on P c pk ds (payload P c em).
+Proof.
+  destruct c; split; reflexivity.
+Qed.
+
+Lemma sign_depends_on_payload P k c m m' em em' g :
+  ktag k = curve_tag c -> scrub_input m = Ok em -> scrub_input m' = Ok em' ->
+  payload P c em = payload P c em' -> key_sign P k m g = key_sign P k m' g.
+Proof.
+  intros Htag Hm Hm' Hp. unfold key_sign. rewrite Hm, Hm'. cbn [bind].
+  destruct (secret_of k) as [sk|]; [|reflexivity].
+  rewrite Htag, curve_of_tag_tag.
+  rewrite (proj1 (digest_discipline P c sk [] [] em)), (proj1 (digest_discipline P c sk [] [] em')), Hp.
+  reflexivity.
+Qed.
+
+(* ------------------------------------------------------------------------------------------- *)
+(* a hex string denotes its bytes                                                              *)
+(* ------------------------------------------------------------------------------------------- *)
+
+Lemma hexchar_facts k : k < 16 ->
+  is_space (hexchar (N.of_nat k)) = false /\ hexdig (hexchar (N.of_nat k)) = Some (N.of_nat k) /\
+  (hexchar (N.of_nat k) =? 120)%N = false.
+Proof.
+  intro H. do 16 (destruct k as [|k]; [vm_compute; auto|]). lia.
+Qed.
+
+Lemma hexchar_facts_N n : (n < 16)%N ->
+  is_space (hexchar n) = false /\ hexdig (hexchar n) = Some n /\ (hexchar n =? 120)%N = false.
+Proof.
+  intro H. rewrite <- (N2Nat.id n). apply hexchar_facts. lia.
+Qed.
+
+Lemma rm0x_spec s :
+  rm0x s = match s with
+           | a :: b :: r => if ((a =? 48) && (b =? 120))%N then r else s
+           | _ => s
+           end.
+Proof.
+  destruct s as [|a [|b r]]; try reflexivity.
+  - unfold rm0x. destruct a as [|pa]; [reflexivity|].
+    repeat (destruct pa as [pa|pa|]; try reflexivity).
+  - destruct (N.eqb_spec a 48) as [Ea|Ea]; [destruct (N.eqb_spec b 120) as [Eb|Eb]|]; subst; cbn [andb].
+    + reflexivity.
+    + unfold rm0x. destruct b as [|pb]; [reflexivity|].
+      repeat (destruct pb as [pb|pb|]; try reflexivity). exfalso; apply Eb; reflexivity.
+    + unfold rm0x. destruct a as [|pa]; [reflexivity|].
+      repeat (destruct pa as [pa|pa|]; try reflexivity). exfalso; apply Ea; reflexivity.
+Qed.
+
+Lemma fromhex_hex_of b : fromhex (hex_of b) = Some b.
+Proof.
+  unfold fromhex. induction b as [|x b IH]; [reflexivity|].
+  cbn [hex_of flat_map app]. fold (hex_of b).
+  pose proof (to_N_lt_256 x) as Hx.
+  assert (Hhi : (Byte.to_N x / 16 < 16)%N) by (apply N.div_lt_upper_bound; lia).
+  assert (Hlo : (Byte.to_N x mod 16 < 16)%N) by (apply N.mod_lt; lia).
+  destruct (hexchar_facts_N _ Hhi) as [S1 [D1 _]]. destruct (hexchar_facts_N _ Hlo) as [_ [D2 _]].
+  cbn [fromhex_aux]. rewrite S1, D1, D2, IH.
+  f_equal. f_equal. rewrite <- (b8_to_N x) at 3. f_equal.
+  rewrite (N.div_mod (Byte.to_N x) 16) at 3 by lia. lia.
+Qed.
+
+Lemma rm0x_hex_of b : rm0x (hex_of b) = hex_of b.
+Proof.
+  rewrite rm0x_spec. destruct b as [|x b]; [reflexivity|].
+  cbn [hex_of flat_map app].
+  assert (Hlo : (Byte.to_N x mod 16 < 16)%N) by (apply N.mod_lt; lia).
+  destruct (hexchar_facts_N _ Hlo) as [_ [_ E]]. rewrite E, andb_false_r. reflexivity.
+Qed.
+
+Lemma scrub_hex b : scrub_input (PS (hex_of b)) = Ok b /\ scrub_input (PS (48 :: 120 :: hex_of b)%N) = Ok b.
+Proof.
+  split; unfold scrub_input.
+  - rewrite rm0x_hex_of, fromhex_hex_of. reflexivity.
+  - change (rm0x (48 :: 120 :: hex_of b)%N) with (hex_of b). rewrite fromhex_hex_of. reflexivity.
+Qed.
+
+(* ------------------------------------------------------------------------------------------- *)
+(* statements of Properties/C07.v                                                              *)
+(* ------------------------------------------------------------------------------------------- *)
+
+Lemma c07_sign_then_verify : forall P, sig_laws P -> forall c se pk sk m em g,
+  keypair P c se pk sk -> se <> [] -> scrub_input m = Ok em ->
+  from_secret_exponent P (curve_tag c) se = Ok (mkkey pk (Some sk) (curve_tag c)) /\
+  exists s,
+    key_sign P (mkkey pk (Some sk) (curve_tag c)) m g = Ok s /\
+    key_verify P (mkkey pk (Some sk) (curve_tag c)) (PS s) m = Valid /\
+    key_verify P (mkkey pk None (curve_tag c)) (PS s) m = Valid.
+Proof.
+  intros P L c se pk sk m em g Hkp Hne Hm. split.
+  - exact (from_secret_exponent_keypair P L c se pk sk Hkp).
+  - exact (sign_then_verify P L c se pk sk m em g Hkp Hne Hm).
+Qed.
+
+Lemma c07_check_signature_accepts : forall P, sig_laws P -> forall c se pk sk em g s pks,
+  keypair P c se pk sk -> se <> [] ->
+  key_sign P (mkkey pk (Some sk) (curve_tag c)) (PB em) g = Ok s ->
+  public_key P (mkkey pk (Some sk) (curve_tag c)) = Ok pks ->
+  check_signature P pks s em = Ok true.
+Proof.
+  intros P L c se pk sk em g s pks Hkp Hne Hs Hpk.
+  destruct (sign_then_verify P L c se pk sk (PB em) em g Hkp Hne eq_refl) as [s' [Hs' [_ Hv]]].
+  rewrite Hs in Hs'. injection Hs' as <-.
+  rewrite (check_signature_public P (sl_b58 P L) c pk (Some sk) pks s em (keypair_pk_len P L c se pk sk Hkp) Hpk).
+  rewrite Hv. reflexivity.
+Qed.
+
+Lemma c07_signature_form : forall P, sig_laws P -> forall c pk sk m em g raw,
+  sk <> [] -> scrub_input m = Ok em -> raw_sign P c sk em = Ok raw -> length raw = siglen c ->
+  key_sign P (mkkey pk (Some sk) (curve_tag c)) m g = Ok (str_of (b58enc P (r_bin (sig_row c g) ++ raw))) /\
+  r_txt (sig_row c g) = (if g && negb (curve_eqb c BL) then tx "sig" else curve_tag c ++ tx "sig").
+Proof.
+  intros P L c pk sk m em g raw H1 H2 H3 H4. split.
+  - exact (sign_ok P L c pk sk m em g raw H1 H2 H3 H4).
+  - destruct c, g; reflexivity.
+Qed.
